@@ -695,8 +695,23 @@ func reifyPrimitive(
 ) (reflect.Value, Error) {
 	// zero initialize value if val==nil
 	if isNil(val) {
-		v := pointerize(t, baseType, reflect.Zero(baseType))
-		return tryInitDefaults(v), nil
+		v := tryInitDefaults(pointerize(t, baseType, reflect.Zero(baseType)))
+
+		// The zero value, or whatever InitDefaults stores, ends up in the
+		// result like a value read from the configuration: it has to satisfy
+		// the validators as well.
+		var ctx context
+		var meta *Meta
+		if val != nil {
+			ctx, meta = val.Context(), val.meta()
+		}
+		if err := runValidators(chaseValuePointers(v).Interface(), opts.validators); err != nil {
+			return reflect.Value{}, raiseValidation(ctx, meta, "", err)
+		}
+		if err := tryValidate(v); err != nil {
+			return reflect.Value{}, raiseValidation(ctx, meta, "", err)
+		}
+		return v, nil
 	}
 
 	var v reflect.Value
